@@ -30,6 +30,9 @@ type Prog struct {
 	extCache    map[*ssa.Function][]*ssa.Function
 	extSet      map[*ssa.Function]map[*ssa.Function]bool
 	boundSites  map[*ssa.Function][]*ssa.MakeClosure
+	forward     map[*ssa.Function]*ssa.Function // pure forwarder → the function it stands for
+	exposedVia  map[*ssa.Function]bool          // reached through an exported or value-referenced forwarder
+	alias       map[*ssa.Function]*ssa.Function // body → its only forwarder, whose name it goes by
 }
 
 // Site is one call/defer/go instruction that may invoke a function.
@@ -44,6 +47,7 @@ func New(p *load.Program) *Prog {
 	for _, f := range p.Funcs {
 		pr.InRepo[f] = true
 	}
+	pr.collapseForwarders()
 	for _, f := range p.Funcs {
 		for _, b := range f.Blocks {
 			for _, ins := range b.Instrs {
@@ -61,6 +65,7 @@ func New(p *load.Program) *Prog {
 		}
 	}
 	pr.buildCallers()
+	pr.hideForwarders()
 	if len(p.Funcs) > 0 {
 		progRegistry.Store(p.Funcs[0].Prog, pr)
 	}
@@ -127,11 +132,27 @@ func Name(f *ssa.Function) string {
 	if f == nil {
 		return "<nil>"
 	}
-	s := f.String()
+	s := fnString(f)
 	s = strings.ReplaceAll(s, load.ModulePath+"/", "")
 	s = strings.ReplaceAll(s, load.ModulePath+".", "jrpc2.")
 	s = strings.ReplaceAll(s, load.ModulePath, "jrpc2")
 	return s
+}
+
+// fnString is f.String(), except that a function entered only through one
+// pure forwarder (and its closures) goes by the forwarder's name: the body
+// `lookupBody` of `func Lookup(..) { return lookupBody(..) }` is Lookup.
+func fnString(f *ssa.Function) string {
+	root := f
+	for root.Parent() != nil {
+		root = root.Parent()
+	}
+	if p := ProgOf(root); p != nil {
+		if w := p.alias[root]; w != nil {
+			return strings.Replace(f.String(), root.String(), w.String(), 1)
+		}
+	}
+	return f.String()
 }
 
 // CalleeName names what a call invokes: a static callee's full name, or
@@ -152,9 +173,9 @@ func CalleeName(c *ssa.CallCommon) string {
 // FullName is f.String() with generic instantiation brackets removed, so
 // callees can be matched exactly ("(*sync.Mutex).Lock").
 func FullName(f *ssa.Function) string {
-	s := f.String()
+	s := fnString(f)
 	if o := f.Origin(); o != nil {
-		s = o.String()
+		s = fnString(o)
 	}
 	// strip type-parameter lists of receivers: (*pkg.Queue[T]).Add
 	for {
@@ -208,7 +229,7 @@ func MethodCall(c *ssa.CallCommon) (name string, recv ssa.Value) {
 		return c.Method.Name(), c.Value
 	}
 	if g := c.StaticCallee(); g != nil && g.Signature.Recv() != nil && len(c.Args) > 0 {
-		return g.Name(), c.Args[0]
+		return BaseName(g), c.Args[0]
 	}
 	return "", nil
 }
@@ -242,12 +263,13 @@ func (p *Prog) FuncValues(v ssa.Value) ([]*ssa.Function, bool) {
 	for _, s := range p.Sources(v) {
 		switch x := s.(type) {
 		case *ssa.Function:
+			x = p.Resolve(x)
 			if !seen[x] {
 				seen[x] = true
 				out = append(out, x)
 			}
 		case *ssa.MakeClosure:
-			f := unwrapBound(x.Fn.(*ssa.Function))
+			f := p.Resolve(unwrapBound(x.Fn.(*ssa.Function)))
 			if !seen[f] {
 				seen[f] = true
 				out = append(out, f)
@@ -298,6 +320,187 @@ func CalleeThroughBound(c *ssa.CallCommon) *ssa.Function {
 	}
 	return nil
 }
+
+// forwardTarget recognises a pure forwarder: a function whose whole body is
+// `return g(params...)` (same parameters in the same order, the receiver
+// included, every result returned as it is). Such a function is another name
+// for g.
+func forwardTarget(w *ssa.Function) *ssa.Function {
+	if w.Parent() != nil || w.Synthetic != "" || len(w.Blocks) != 1 || w.TypeParams().Len() != 0 {
+		return nil
+	}
+	ins := w.Blocks[0].Instrs
+	if len(ins) < 2 {
+		return nil
+	}
+	call, ok := ins[0].(*ssa.Call)
+	if !ok || call.Call.IsInvoke() {
+		return nil
+	}
+	g := call.Call.StaticCallee()
+	if g == nil || g == w || g.Blocks == nil || g.Parent() != nil || len(call.Call.Args) != len(w.Params) || len(g.Params) != len(w.Params) {
+		return nil
+	}
+	for i, a := range call.Call.Args {
+		if a != ssa.Value(w.Params[i]) || !types.Identical(w.Params[i].Type(), g.Params[i].Type()) {
+			return nil
+		}
+	}
+	if !types.Identical(w.Signature.Results(), g.Signature.Results()) {
+		return nil
+	}
+	ret, ok := ins[len(ins)-1].(*ssa.Return)
+	if !ok {
+		return nil
+	}
+	n := w.Signature.Results().Len()
+	switch {
+	case n == 0:
+		if len(ins) != 2 {
+			return nil
+		}
+	case n == 1:
+		if len(ins) != 2 || len(ret.Results) != 1 || ret.Results[0] != ssa.Value(call) {
+			return nil
+		}
+	default:
+		if len(ins) != 2+n || len(ret.Results) != n {
+			return nil
+		}
+		for i := 0; i < n; i++ {
+			ex, isEx := ins[1+i].(*ssa.Extract)
+			if !isEx || ex.Tuple != ssa.Value(call) || ex.Index != i || ret.Results[i] != ssa.Value(ex) {
+				return nil
+			}
+		}
+	}
+	return g
+}
+
+// collapseForwarders makes pure forwarders transparent: every static call of
+// a forwarder is redirected to the function it stands for, which inherits the
+// forwarder's exposure (exported, or referenced as a value). Resolve maps a
+// forwarder found by name to the function that holds the body.
+func (p *Prog) collapseForwarders() {
+	p.forward = map[*ssa.Function]*ssa.Function{}
+	p.exposedVia = map[*ssa.Function]bool{}
+	for _, f := range p.Funcs {
+		if g := forwardTarget(f); g != nil && p.InRepo[g] {
+			p.forward[f] = g
+		}
+	}
+	if len(p.forward) == 0 {
+		return
+	}
+	p.alias = map[*ssa.Function]*ssa.Function{}
+	count := map[*ssa.Function]int{}
+	for w := range p.forward {
+		count[p.Resolve(w)]++
+	}
+	for w := range p.forward {
+		// the outermost forwarder of a chain gives the name
+		if g := p.Resolve(w); count[g] == 1 {
+			p.alias[g] = w
+		}
+	}
+	for _, f := range p.Funcs {
+		for _, b := range f.Blocks {
+			for _, ins := range b.Instrs {
+				ci, ok := ins.(ssa.CallInstruction)
+				if !ok || ci.Common().IsInvoke() {
+					continue
+				}
+				if g := ci.Common().StaticCallee(); g != nil && p.forward[g] != nil && p.forward[f] == nil {
+					ci.Common().Value = p.Resolve(g)
+				}
+			}
+		}
+	}
+}
+
+// hideForwarders drops the forwarders from the list of analysed functions:
+// after the redirection they are names, not code.
+func (p *Prog) hideForwarders() {
+	if len(p.forward) == 0 {
+		return
+	}
+	var keep []*ssa.Function
+	for _, f := range p.Funcs {
+		if p.forward[f] == nil {
+			keep = append(keep, f)
+		}
+	}
+	p.Funcs = keep
+}
+
+// Resolve returns the function that holds the body f stands for (f itself
+// unless f is a pure forwarder).
+func (p *Prog) Resolve(f *ssa.Function) *ssa.Function {
+	for i := 0; i < 8 && f != nil; i++ {
+		g, ok := p.forward[f]
+		if !ok {
+			return f
+		}
+		f = g
+	}
+	return f
+}
+
+// Resolve is Prog.Resolve for callers that hold no program.
+func Resolve(f *ssa.Function) *ssa.Function {
+	if p := ProgOf(f); p != nil {
+		return p.Resolve(f)
+	}
+	return f
+}
+
+// GetterLoad sees through a pure field getter: when v is a call of a private
+// method whose whole body is `return x.f` (x its receiver), the load inside
+// the getter is returned in v's place (it has the same owner type and field
+// as a load written at the call site would have); v itself otherwise.
+func GetterLoad(v ssa.Value) ssa.Value {
+	call, ok := v.(*ssa.Call)
+	if !ok || call.Call.IsInvoke() {
+		return v
+	}
+	g := call.Call.StaticCallee()
+	if g == nil || g.Parent() != nil || len(g.Blocks) != 1 || g.Signature.Recv() == nil || len(g.Params) != 1 || g.Signature.Results().Len() != 1 {
+		return v
+	}
+	ins := g.Blocks[0].Instrs
+	if len(ins) != 3 {
+		return v
+	}
+	fa, ok1 := ins[0].(*ssa.FieldAddr)
+	ld, ok2 := ins[1].(*ssa.UnOp)
+	ret, ok3 := ins[2].(*ssa.Return)
+	if !ok1 || !ok2 || !ok3 || fa.X != ssa.Value(g.Params[0]) || ld.Op != token.MUL || ld.X != ssa.Value(fa) || len(ret.Results) != 1 || ret.Results[0] != ssa.Value(ld) {
+		return v
+	}
+	return ld
+}
+
+// FieldRead reports the field read v denotes — a load `*(&x.f)` or a call
+// of a pure getter `x.getF()` — with its base x.
+func FieldRead(v ssa.Value) (base ssa.Value, field *types.Var, ok bool) {
+	if call, isCall := v.(*ssa.Call); isCall {
+		if ld, isLoad := GetterLoad(v).(*ssa.UnOp); isLoad && ssa.Value(ld) != v && len(call.Call.Args) == 1 {
+			if fa, isFA := ld.X.(*ssa.FieldAddr); isFA {
+				return call.Call.Args[0], FieldVar(fa), true
+			}
+		}
+		return nil, nil, false
+	}
+	if u, isU := v.(*ssa.UnOp); isU && u.Op == token.MUL {
+		if fa, isFA := u.X.(*ssa.FieldAddr); isFA {
+			return fa.X, FieldVar(fa), true
+		}
+	}
+	return nil, nil, false
+}
+
+// IsForwarder reports whether f is a pure forwarder (see forwardTarget).
+func (p *Prog) IsForwarder(f *ssa.Function) bool { return p.forward[f] != nil }
 
 func (p *Prog) buildCallers() {
 	p.callers = map[*ssa.Function][]Site{}
@@ -351,6 +554,15 @@ func (p *Prog) buildCallers() {
 			}
 		}
 	}
+	for w := range p.forward {
+		g := p.Resolve(w)
+		if p.valueRef[w] {
+			p.valueRef[g] = true
+		}
+		if exportedObj(w) {
+			p.exposedVia[g] = true
+		}
+	}
 	type dyn struct {
 		f  *ssa.Function
 		ci ssa.CallInstruction
@@ -369,6 +581,11 @@ func (p *Prog) buildCallers() {
 		return true
 	}
 	for _, f := range p.Funcs {
+		if p.forward[f] != nil {
+			// the forwarder's own call is not a call site of its target: the target is entered
+			// wherever the forwarder was
+			continue
+		}
 		for _, b := range f.Blocks {
 			for _, ins := range b.Instrs {
 				ci, ok := ins.(ssa.CallInstruction)
@@ -539,6 +756,16 @@ func (t *tracer) walk(v ssa.Value) {
 }
 
 func exported(f *ssa.Function) bool {
+	if f.Parent() != nil {
+		return false
+	}
+	if p := ProgOf(f); p != nil && p.exposedVia[f] {
+		return true
+	}
+	return exportedObj(f)
+}
+
+func exportedObj(f *ssa.Function) bool {
 	if f.Parent() != nil {
 		return false
 	}
